@@ -361,9 +361,17 @@ func verifCopyField(dst, src interface{}) {
 // verifFillSw: the component-list member. Both codecs hand a WINDOW OF THE INPUT (not a copy)
 // to the destination container's own Unmarshal method, which in turn asks the codec for the
 // elements; the stub follows that protocol so that the container's method runs for real.
+// verifJSONNullSw: the JSON decoder stub may see `"psa-software-components": null` (C05 only)
+var verifJSONNullSw bool
+
 func verifFillSw(dst, src *ISwComponents, data []byte, isJSON bool) error {
 	if *src == nil {
-		return nil // key absent: destination untouched
+		// key absent: destination untouched; or (JSON, C05) the member is `null`, which
+		// encoding/json stores into an interface-typed field as a nil interface
+		if isJSON && verifJSONNullSw && ndBool("json.sw.member.is.null") {
+			*dst = nil
+		}
+		return nil
 	}
 	if *dst == nil {
 		return verifErrStub // a list cannot be decoded into a nil interface
